@@ -25,6 +25,16 @@ def requests(ctx):
         vars_ = vcdgen.gen_vars(rng, nvars=rng.choice([1, 2]), style="dense")
         body = vcdgen.gen_body(rng, vars_, nsteps=rng.choice([1, 2, 5, 12]), back_p=0.15, rep_p=0.15, comment_p=0.03)
         rq.append(vcdgen.request(rng.choice(["st", "rd"]), vars_, body))
+    # the same property for the other formats: GHW files (several cycle sections, snapshots at a time other than 0) and FST files
+    # (several value-change blocks, repeated block-boundary times) written from abstract designs; the reply carries the time table
+    from . import ghwgen
+    for _ in range(120 if quick else 1500):
+        d, g = ghwgen.gen_case(rng, nitems=rng.choice([1, 3]), nsteps=rng.choice([2, 6, 15]))
+        rq.append(f"ghw {d} {g.hex()}")
+    for _ in range(60 if quick else 800):
+        dups = []
+        d, _g, _v, f, e = ghwgen.gen_triple(rng, nitems=rng.choice([1, 3]), nsteps=rng.choice([2, 6, 15]), dups=dups)
+        rq.append(f"fstfile {d} {e} {f.hex()}" + (f" {','.join(dups)}" if dups else ""))
     return rq
 
 
